@@ -1125,4 +1125,602 @@ theorem isLcEquivalent_no_small (a b : BMat) (mode : Mode) (draws : List Bool) (
               · cases e
 
 
+/-! ### soundness of `_vec_solution_finder` (mode = "random") -/
+
+theorem vget_map_range (c : Nat) (f : Nat → Bool) (j : Nat) (hj : j < c) : vget ((List.range c).map f) j = f j := by
+  simp [vget, List.getD, hj]
+
+theorem keepCols_nodup (m : BMat) (colList : List Nat) : (keepCols m colList).Nodup :=
+  List.Nodup.sublist List.filter_sublist List.nodup_range
+
+theorem findIdx_keep (l : List Nat) (hn : l.Nodup) (k : Nat) (hk : k < l.length) :
+    l.findIdx? (· == l.getD k 0) = some k := by
+  have hget : l.getD k 0 = l[k] := by simp [List.getD, List.getElem?_eq_getElem hk]
+  rw [hget, List.findIdx?_eq_some_iff_getElem]
+  refine ⟨hk, by simp, fun j hj => ?_⟩
+  have hjl : j < l.length := by omega
+  have : l[j] ≠ l[k] := fun e => by
+    have := (List.getElem_inj hn).mp e
+    omega
+  simpa using this
+
+theorem findIdx_none_of_not_mem (l : List Nat) (j : Nat) (h : j ∉ l) : l.findIdx? (· == j) = none := by
+  rw [List.findIdx?_eq_none_iff]
+  intro x hx
+  have : x ≠ j := fun e => h (e ▸ hx)
+  simpa using this
+
+/-- `_vec_solution_finder` returns a solution of the reduced system, whatever the random free coordinates were -/
+theorem vecSolutionFinder_sound (m : BMat) (colList : List Nat) (bits s : List Bool)
+    (e : vecSolutionFinder m colList bits = .ok s) : s.length = m.c ∧ SolF m (vget s) := by
+  unfold vecSolutionFinder at e
+  simp only [] at e
+  split at e
+  · cases e
+  · rename_i ainv hinv
+    injection e with e
+    obtain ⟨hsq, hI⟩ := gf2Inv_spec _ _ hinv
+    have hr : (deleteCols m colList).r = m.r := rfl
+    have hc : (deleteCols m colList).c = (keepCols m colList).length := rfl
+    have hk : m.r = (keepCols m colList).length := by rw [← hr, hsq, hc]
+    refine ⟨by rw [← e]; simp, ?_⟩
+    -- names for the intermediate vectors
+    generalize hvar : ((List.range m.c).map fun j =>
+        match colList.findIdx? (· == j) with
+        | some k => bits.getD k false
+        | none => false) = var at e
+    generalize hb : ((List.range m.r).map fun i => dotRow m i var) = b at e
+    generalize hx : ((List.range (deleteCols m colList).r).map fun k =>
+        parityTo (deleteCols m colList).r fun l => ainv.f k l && vget b l) = x at e
+    have hkeep : ((List.range m.c).filter fun j => !colList.contains j) = keepCols m colList := rfl
+    rw [hkeep] at e
+    -- entries of the returned vector
+    have hs_free : ∀ j, j < m.c → colList.contains j = true → vget s j = vget var j := by
+      intro j hj hcj
+      rw [← e, vget_map_range m.c _ j hj]
+      have : j ∉ keepCols m colList := by
+        simp only [keepCols, List.mem_filter, List.mem_range, not_and]
+        intro _; rw [hcj]; simp
+      rw [findIdx_none_of_not_mem _ j this]
+    have hs_keep : ∀ k, k < (keepCols m colList).length → vget s ((keepCols m colList).getD k 0) = vget x k := by
+      intro k hkk
+      have hmem : (keepCols m colList).getD k 0 ∈ keepCols m colList := by
+        simp [List.getD, List.getElem?_eq_getElem hkk]
+      have hlt : (keepCols m colList).getD k 0 < m.c := by
+        simp only [keepCols, List.mem_filter, List.mem_range] at hmem; exact hmem.1
+      rw [← e, vget_map_range m.c _ _ hlt, findIdx_keep _ (keepCols_nodup m colList) k hkk]
+    have hvar_keep : ∀ j, j < m.c → colList.contains j = false → vget var j = false := by
+      intro j hj hcj
+      rw [← hvar, vget_map_range m.c _ j hj]
+      have : j ∉ colList := by simpa using hcj
+      rw [findIdx_none_of_not_mem _ j this]
+    have hbi : ∀ i, i < m.r → vget b i = rowDot m i (vget var) := by
+      intro i hi
+      rw [← hb, vget_map_range m.r _ i hi]; rfl
+    have hxk : ∀ k, k < m.r → vget x k = parityTo m.r fun l => ainv.f k l && vget b l := by
+      intro k hkk
+      rw [← hx, hr, vget_map_range m.r _ k hkk]
+    intro i hi
+    unfold rowDot
+    -- split the row sum into kept and free columns
+    have esplit : ∀ j, j < m.c → (m.f i j && vget s j) =
+        xor ((!colList.contains j) && (m.f i j && vget s j)) (m.f i j && vget var j) := by
+      intro j hj
+      by_cases hcj : colList.contains j = true
+      · rw [hs_free j hj hcj, hcj]; simp
+      · have hcj' : colList.contains j = false := by simpa using hcj
+        rw [hvar_keep j hj hcj', hcj']; simp
+    rw [parityTo_congr m.c _ _ esplit, parityTo_xor, parityTo_filter]
+    have hfree : (parityTo m.c fun j => m.f i j && vget var j) = vget b i := by rw [hbi i hi]; rfl
+    rw [hfree]
+    -- the kept part is A (A⁻¹ b) = b
+    have hkept : (parityTo ((List.range m.c).filter fun j => !colList.contains j).length fun k =>
+        m.f i (((List.range m.c).filter fun j => !colList.contains j).getD k 0) &&
+          vget s (((List.range m.c).filter fun j => !colList.contains j).getD k 0)) = vget b i := by
+      show (parityTo (keepCols m colList).length fun k => m.f i ((keepCols m colList).getD k 0) && vget s ((keepCols m colList).getD k 0)) = _
+      rw [← hk]
+      have e1 : ∀ k, k < m.r → (m.f i ((keepCols m colList).getD k 0) && vget s ((keepCols m colList).getD k 0)) =
+          parityTo m.r (fun l => (deleteCols m colList).f i k && ainv.f k l && vget b l) := by
+        intro k hkk
+        rw [hs_keep k (by rw [← hk]; exact hkk), hxk k hkk, ← parityTo_and_const]
+        apply parityTo_congr
+        intro l _
+        rw [Bool.and_assoc]; rfl
+      rw [parityTo_congr m.r _ _ e1, parityTo_comm]
+      have e2 : ∀ l, l < m.r → (parityTo m.r fun k => (deleteCols m colList).f i k && ainv.f k l && vget b l) =
+          (decide (l = i) && vget b l) := by
+        intro l hl
+        rw [parityTo_const_and]
+        have := (hI i l (by rw [hr]; exact hi) (by rw [hr]; exact hl)).2
+        rw [hr] at this
+        unfold matMul at this
+        rw [this]
+        by_cases e : i = l
+        · subst e; simp
+        · have e' : ¬ l = i := fun x => e x.symm
+          simp [e, e']
+      rw [parityTo_congr m.r _ _ e2, parityTo_single m.r i _ hi]
+    rw [hkept]
+    cases vget b i <;> rfl
+
+
+theorem randomChecker_sound (n : Nat) (m : BMat) (colList : List Nat) (ts : List (List Bool)) (k k' : Nat) (s : List Bool)
+    (e : randomChecker n m colList ts k = .ok (some s, k')) :
+    s.length = m.c ∧ SolF m (vget s) ∧ isValidClifford n s = true := by
+  induction ts generalizing k with
+  | nil => simp [randomChecker] at e
+  | cons t rest ih =>
+    simp only [randomChecker] at e
+    split at e
+    · cases e
+    · rename_i s1 e1
+      split at e
+      · rename_i hv
+        injection e with e
+        injection e with e2 _
+        injection e2 with e2
+        rw [← e2]
+        obtain ⟨h1, h2⟩ := vecSolutionFinder_sound m colList t s1 e1
+        exact ⟨h1, h2, hv⟩
+      · exact ih (k + 1) e
+
+/-- **soundness of every `yes`, all modes** (all combinations, pair sums, and the random search whatever the draws):
+    the returned `Q` has the right length, solves the linear system, and every 2×2 block is invertible -/
+theorem isLcEquivalent_sound_all (a b : BMat) (mode : Mode) (draws : List Bool) (out : EqOut) (q : List Bool)
+    (hn : 0 < a.r) (e : isLcEquivalent a b mode draws = .ok out) (hq : out.sol = some q) :
+    q.length = 4 * a.r ∧ SolF (coeffMaker a.r a.f b.f) (vget q) ∧ isValidClifford a.r q = true := by
+  by_cases hp : out.path = "random"
+  · unfold isLcEquivalent at e
+    simp only [] at e
+    split at e
+    · cases e
+    · split at e
+      · cases e; simp at hp
+      · split at e
+        · cases e
+        · split at e
+          · cases e
+          · have hred := fun v => reduced_sol a.r a.f b.f v hn
+            have hc := (hred (vget q)).1
+            split at e
+            · cases e
+            · split at e
+              · split at e
+                · cases e; simp at hp
+                · cases e; simp at hp
+              · split at e
+                · split at e
+                  · cases e
+                  · rename_i sol k er
+                    cases e
+                    simp only [] at hq
+                    rw [hq] at er
+                    obtain ⟨h1, h2, h3⟩ := randomChecker_sound _ _ _ _ _ _ q er
+                    exact ⟨h1.trans hc, (hred _).2.mp h2, h3⟩
+                · split at e
+                  · cases e; simp at hp
+                  · cases e; simp at hp
+                · cases e
+  · exact isLcEquivalent_sound a b mode draws out q hn e hq hp
+
+
+/-! ### the echelon structure produced by `row_reduction`, and the full-rank shortcut -/
+
+/-- rows `0..k-1` carry pivots at strictly increasing columns below `bound`; every pivot column is zero below its pivot -/
+structure Piv (x : BMat) (k bound : Nat) (piv : Nat → Nat) : Prop where
+  one : ∀ i, i < k → x.f i (piv i) = true
+  below : ∀ i i', i < k → i < i' → i' < x.r → x.f i' (piv i) = false
+  incr : ∀ i i', i < i' → i' < k → piv i < piv i'
+  bound : ∀ i, i < k → piv i < bound
+
+theorem Piv.weaken {x : BMat} {k b b' : Nat} {piv : Nat → Nat} (h : Piv x k b piv) (hb : b ≤ b') : Piv x k b' piv :=
+  ⟨h.one, h.below, h.incr, fun i hi => Nat.lt_of_lt_of_le (h.bound i hi) hb⟩
+
+theorem foldAdd_entry (m : BMat) (pr : Nat) (rest : List Nat) (i j : Nat) (hn : rest.Nodup) (hpr : pr ∉ rest) :
+    (rest.foldl (fun acc t => addRows acc pr t) m).f i j = if i ∈ rest then xor (m.f pr j) (m.f i j) else m.f i j := by
+  induction rest generalizing m with
+  | nil => simp
+  | cons t rest' ih =>
+    have hnt : t ∉ rest' := (List.nodup_cons.mp hn).1
+    have hprt : pr ≠ t := fun e => hpr (by simp [e])
+    have hpr' : pr ∉ rest' := fun e => hpr (List.mem_cons_of_mem _ e)
+    simp only [List.foldl_cons]
+    rw [ih (addRows m pr t) (List.nodup_cons.mp hn).2 hpr']
+    have e1 : (addRows m pr t).f pr j = m.f pr j := by simp [addRows, hprt]
+    rw [e1]
+    by_cases hit : i = t
+    · subst hit
+      simp [hnt, addRows]
+    · have : (addRows m pr t).f i j = m.f i j := by simp [addRows, hit]
+      rw [this]
+      simp [hit]
+
+/-- membership in `the_ones` -/
+theorem mem_theOnes (m : BMat) (lo c i : Nat) : i ∈ theOnes m lo c ↔ i < m.r ∧ lo ≤ i ∧ m.f i c = true := by
+  simp [theOnes, List.mem_filter]
+
+/-- swapping the first 1 into the pivot row and clearing the others creates a new pivot and keeps the old ones -/
+theorem eliminate_piv (x : BMat) (pr pc o : Nat) (rest : List Nat) (piv : Nat → Nat) (hP : Piv x pr pc piv)
+    (ho : theOnes x pr pc = o :: rest) (hpr : pr < x.r) (hpc : pc < x.c) :
+    Piv (eliminate x pr o rest) (pr + 1) (pc + 1) (fun i => if i = pr then pc else piv i) := by
+  obtain ⟨ho1, ho2, ho3⟩ := theOnes_spec x pr pc o rest ho
+  have hsorted : (o :: rest).Pairwise (· < ·) := by rw [← ho]; exact List.Pairwise.filter _ List.pairwise_lt_range
+  have hnd : rest.Nodup := by
+    have := (List.pairwise_cons.mp hsorted).2
+    exact this.imp (fun h => Nat.ne_of_lt h)
+  have hprn : pr ∉ rest := fun h => by have := ho3 pr h; omega
+  have hon : o ∉ rest := fun h => by have := ho3 o h; omega
+  have hxo : x.f o pc = true := ((mem_theOnes x pr pc o).mp (by rw [ho]; simp)).2.2
+  -- entry of the eliminated matrix
+  have hent : ∀ i j, i < x.r → j < x.c → (eliminate x pr o rest).f i j =
+      if i ∈ rest then xor ((rowSwap x o pr).f pr j) ((rowSwap x o pr).f i j) else (rowSwap x o pr).f i j := by
+    intro i j hi hj
+    unfold eliminate
+    rw [BMat.norm_agree _ i j (by rw [(foldAdd_dims _ pr rest).1]; exact hi) (by rw [(foldAdd_dims _ pr rest).2]; exact hj)]
+    exact foldAdd_entry _ pr rest i j hnd hprn
+  have hswap : ∀ i j, (rowSwap x o pr).f i j = if i = o then x.f pr j else if i = pr then x.f o j else x.f i j := fun _ _ => rfl
+  -- rows above the pivot row are untouched
+  have habove : ∀ i j, i < pr → j < x.c → (eliminate x pr o rest).f i j = x.f i j := by
+    intro i j hi hj
+    rw [hent i j (by omega) hj]
+    have h1 : i ∉ rest := fun h => by have := ho3 i h; omega
+    rw [if_neg h1, hswap]
+    have h2 : i ≠ o := by omega
+    have h3 : i ≠ pr := by omega
+    simp [h2, h3]
+  -- an old pivot column stays zero from the pivot row downwards
+  have hold : ∀ q, q < x.c → (∀ i', pr ≤ i' → i' < x.r → x.f i' q = false) →
+      ∀ i', pr ≤ i' → i' < x.r → (eliminate x pr o rest).f i' q = false := by
+    intro q hq hz i' h1 h2
+    have hs : ∀ i'', pr ≤ i'' → i'' < x.r → (rowSwap x o pr).f i'' q = false := by
+      intro i'' h3 h4
+      rw [hswap]
+      split
+      · exact hz pr (Nat.le_refl _) hpr
+      · split
+        · exact hz o ho2 ho1
+        · exact hz i'' h3 h4
+    rw [hent i' q h2 hq]
+    split
+    · rw [hs pr (Nat.le_refl _) hpr, hs i' h1 h2]; rfl
+    · exact hs i' h1 h2
+  refine ⟨?_, ?_, ?_, ?_⟩
+  · intro i hi
+    by_cases e : i = pr
+    · subst e
+      simp only [if_true]
+      rw [hent i pc hpr hpc, if_neg hprn, hswap]
+      by_cases e2 : i = o
+      · subst e2; simp [hxo]
+      · simp [e2, hxo]
+    · simp only [e, if_false]
+      have hi' : i < pr := by omega
+      rw [habove i (piv i) hi' (Nat.lt_trans (hP.bound i hi') hpc)]
+      exact hP.one i hi'
+  · intro i i' hi hii' hi'r
+    have hr' : (eliminate x pr o rest).r = x.r := (eliminate_dims x pr o rest).1
+    rw [hr'] at hi'r
+    by_cases e : i = pr
+    · subst e
+      simp only [if_true]
+      -- the new pivot column below the pivot
+      rw [hent i' pc hi'r hpc]
+      by_cases hm : i' ∈ rest
+      · rw [if_pos hm]
+        have h1 : i' ≠ o := fun e => hon (e ▸ hm)
+        have h2 : i' ≠ i := by omega
+        have hx : x.f i' pc = true := ((mem_theOnes x i pc i').mp (by rw [ho]; exact List.mem_cons_of_mem _ hm)).2.2
+        rw [hswap, hswap]
+        by_cases e2 : i = o
+        · subst e2; simp [h1, hxo, hx]
+        · simp [e2, h1, h2, hxo, hx]
+      · rw [if_neg hm, hswap]
+        by_cases e2 : i' = o
+        · subst e2
+          simp only [if_true]
+          -- o ≠ pr here, so the old pivot-row entry is 0
+          have hne : i ≠ i' := by omega
+          by_cases hx : x.f i pc = true
+          · have : i ∈ theOnes x i pc := (mem_theOnes x i pc i).mpr ⟨hpr, Nat.le_refl _, hx⟩
+            rw [ho] at this
+            rcases List.mem_cons.mp this with h | h
+            · exact absurd h hne
+            · have := ho3 i h; omega
+          · simpa using hx
+        · have h2 : i' ≠ i := by omega
+          simp only [e2, h2, if_false]
+          by_cases hx : x.f i' pc = true
+          · have : i' ∈ theOnes x i pc := (mem_theOnes x i pc i').mpr ⟨hi'r, by omega, hx⟩
+            rw [ho] at this
+            rcases List.mem_cons.mp this with h | h
+            · exact absurd h e2
+            · exact absurd h hm
+          · simpa using hx
+    · simp only [e, if_false]
+      have hi' : i < pr := by omega
+      have hq : piv i < x.c := Nat.lt_trans (hP.bound i hi') hpc
+      by_cases h3 : i' < pr
+      · rw [habove i' (piv i) h3 hq]
+        exact hP.below i i' hi' hii' (by omega)
+      · exact hold (piv i) hq (fun i'' h4 h5 => hP.below i i'' hi' (by omega) h5) i' (by omega) hi'r
+  · intro i i' hii' hi'
+    by_cases e : i' = pr
+    · have e1 : i ≠ pr := by omega
+      simp only [e, e1, if_true, if_false]
+      exact hP.bound i (by omega)
+    · have e1 : i ≠ pr := by omega
+      simp only [e, e1, if_false]
+      exact hP.incr i i' hii' (by omega)
+  · intro i hi
+    by_cases e : i = pr
+    · simp [e]
+    · simp only [e, if_false]
+      have := hP.bound i (by omega); omega
+
+
+/-- the state reached when the row reduction stops: `last + 1` pivot rows -/
+def FinalPiv (res : BMat × BMat × Int) : Prop :=
+  ∃ piv, Piv res.1 (res.2.2 + 1).toNat res.1.c piv ∧ (res.2.2 + 1).toNat ≤ res.1.r
+
+theorem rowReductionLoop_piv (fuel : Nat) (x z : BMat) (pr pc : Nat) (piv : Nat → Nat) (hpr : pr < x.r) (hpc : pc < x.c)
+    (hf : x.c ≤ pc + fuel) (hP : Piv x pr pc piv) : FinalPiv (rowReductionLoop fuel x z pr pc) := by
+  induction fuel generalizing x z pr pc piv with
+  | zero => omega
+  | succ f ih =>
+    simp only [rowReductionLoop]
+    unfold rowRedOneStep
+    split
+    · -- last column
+      rename_i hlast
+      split
+      · -- nothing below: the pivot rows are 0..pr-1
+        simp only [Bool.false_eq_true, if_false]
+        refine ⟨piv, ?_, ?_⟩
+        · have : ((pr : Int) - 1 + 1).toNat = pr := by omega
+          show Piv x ((pr : Int) - 1 + 1).toNat x.c piv
+          rw [this]; exact hP.weaken (by omega)
+        · show ((pr : Int) - 1 + 1).toNat ≤ x.r
+          omega
+      · rename_i o rest ho
+        simp only [Bool.false_eq_true, if_false]
+        have hE := eliminate_piv x pr pc o rest piv hP ho hpr hpc
+        have hd := eliminate_dims x pr o rest
+        refine ⟨fun i => if i = pr then pc else piv i, ?_, ?_⟩
+        · show Piv (eliminate x pr o rest) ((pr : Int) + 1).toNat (eliminate x pr o rest).c _
+          have : ((pr : Int) + 1).toNat = pr + 1 := by omega
+          rw [this, hd.2]
+          exact hE.weaken (by omega)
+        · show ((pr : Int) + 1).toNat ≤ (eliminate x pr o rest).r
+          rw [hd.1]; omega
+    · rename_i hnl
+      split
+      · -- last row
+        rename_i hlr
+        split
+        · rename_i hx
+          simp only [Bool.false_eq_true, if_false]
+          refine ⟨fun i => if i = pr then pc else piv i, ?_, ?_⟩
+          · show Piv x ((pr : Int) + 1).toNat x.c _
+            have : ((pr : Int) + 1).toNat = pr + 1 := by omega
+            rw [this]
+            refine ⟨?_, ?_, ?_, ?_⟩
+            · intro i hi
+              by_cases e : i = pr
+              · subst e; simpa using hx
+              · simp only [e, if_false]; exact hP.one i (by omega)
+            · intro i i' hi hii' hi'r
+              by_cases e : i = pr
+              · omega
+              · simp only [e, if_false]; exact hP.below i i' (by omega) hii' hi'r
+            · intro i i' hii' hi'
+              by_cases e : i' = pr
+              · have e1 : i ≠ pr := by omega
+                simp only [e, e1, if_true, if_false]
+                exact hP.bound i (by omega)
+              · have e1 : i ≠ pr := by omega
+                simp only [e, e1, if_false]
+                exact hP.incr i i' hii' (by omega)
+            · intro i hi
+              by_cases e : i = pr
+              · simp [e]; exact hpc
+              · simp only [e, if_false]
+                have := hP.bound i (by omega); omega
+          · show ((pr : Int) + 1).toNat ≤ x.r
+            omega
+        · simp only [if_true]
+          exact ih x z (Int.toNat pr) (pc + 1) piv (by simpa using hpr) (by omega) (by omega)
+            (by simpa using hP.weaken (Nat.le_succ pc))
+      · split
+        · simp only [if_true]
+          exact ih x z (Int.toNat pr) (pc + 1) piv (by simpa using hpr) (by omega) (by omega)
+            (by simpa using hP.weaken (Nat.le_succ pc))
+        · rename_i hnr o rest ho
+          simp only [if_true]
+          have hE := eliminate_piv x pr pc o rest piv hP ho hpr hpc
+          have hd := eliminate_dims x pr o rest
+          have e1 : ((pr : Int) + 1).toNat = pr + 1 := by omega
+          apply ih (eliminate x pr o rest) (eliminate z pr o rest) ((pr : Int) + 1).toNat (pc + 1) _
+          · rw [e1, hd.1]; omega
+          · rw [hd.2]; omega
+          · rw [hd.2]; omega
+          · rw [e1]; exact hE
+
+theorem rowReduction_piv (x z : BMat) (hr : 0 < x.r) (hc : 0 < x.c) : FinalPiv (rowReduction x z) :=
+  rowReductionLoop_piv x.c x z 0 0 (fun i => i) hr hc (by omega)
+    ⟨fun i hi => by omega, fun i _ hi => by omega, fun i i' _ hi' => by omega, fun i hi => by omega⟩
+
+
+theorem piv_ge (x : BMat) (k b : Nat) (piv : Nat → Nat) (h : Piv x k b piv) (i : Nat) (hi : i < k) : i ≤ piv i := by
+  induction i with
+  | zero => omega
+  | succ i ih =>
+    have := h.incr i (i + 1) (by omega) hi
+    have := ih (by omega)
+    omega
+
+theorem piv_add (x : BMat) (k b : Nat) (piv : Nat → Nat) (h : Piv x k b piv) (i d : Nat) (hi : i + d < k) :
+    piv i + d ≤ piv (i + d) := by
+  induction d with
+  | zero => simp
+  | succ d ih =>
+    have h1 := ih (by omega)
+    have h2 := h.incr (i + d) (i + d + 1) (by omega) (by omega)
+    have : i + (d + 1) = i + d + 1 := by omega
+    rw [this]; omega
+
+/-- as many pivots as columns: the pivots sit on the diagonal -/
+theorem piv_diag (x : BMat) (k : Nat) (piv : Nat → Nat) (h : Piv x k x.c piv) (hk : x.c ≤ k) (i : Nat) (hi : i < x.c) :
+    piv i = i := by
+  have h1 := piv_ge x k x.c piv h i (by omega)
+  have h2 := piv_add x k x.c piv h i (x.c - 1 - i) (by omega)
+  have h3 := h.bound (i + (x.c - 1 - i)) (by omega)
+  omega
+
+theorem parityTo_single_lt (n q : Nat) (f : Nat → Bool) (hq : q < n) (h : ∀ j, j < n → j ≠ q → f j = false) :
+    parityTo n f = f q := by
+  rw [← parityTo_single n q f hq]
+  apply parityTo_congr
+  intro j hj
+  by_cases e : j = q
+  · subst e; simp
+  · simp [e, h j hj e]
+
+/-- **full column rank: the only solution is zero** -/
+theorem full_rank_zero (x : BMat) (k : Nat) (piv : Nat → Nat) (h : Piv x k x.c piv) (hk : x.c ≤ k) (hkr : k ≤ x.r)
+    (v : Nat → Bool) (hv : SolF x v) : ∀ j, j < x.c → v j = false := by
+  have hd := piv_diag x k piv h hk
+  -- back substitution from the last column
+  have key : ∀ d, ∀ j, x.c ≤ j + d → j < x.c → v j = false := by
+    intro d
+    induction d with
+    | zero => intro j h1 h2; omega
+    | succ d ih =>
+      intro j h1 h2
+      have hrow := hv j (by omega)
+      unfold rowDot at hrow
+      rw [parityTo_single_lt x.c j _ h2] at hrow
+      · have hjj : x.f j j = true := by
+          have := h.one j (by omega)
+          rw [hd j h2] at this; exact this
+        rw [hjj] at hrow; simpa using hrow
+      · intro l hlc hl
+        by_cases hlt : l < j
+        · -- below the pivot of column l
+          have := h.below l j (by omega) hlt (by omega)
+          rw [hd l (by omega)] at this
+          rw [this]; simp
+        · rw [ih l (by omega) hlc]; simp
+  intro j hj
+  exact key x.c j (by omega) hj
+
+
+theorem isValidClifford_zero (n : Nat) (hn : 0 < n) (v : List Bool) (hz : ∀ j, j < 4 * n → vget v j = false) :
+    isValidClifford n v = false := by
+  unfold isValidClifford
+  rw [List.all_eq_false]
+  refine ⟨0, List.mem_range.mpr hn, ?_⟩
+  rw [hz 0 (by omega), hz 1 (by omega), hz 2 (by omega), hz 3 (by omega)]
+  simp
+
+/-- **the full-rank shortcut is right**: when `is_lc_equivalent` answers `no` because the reduced coefficient matrix has
+    rank `4 n`, the zero vector is the only solution of the system, so no valid `Q` exists -/
+theorem isLcEquivalent_no_fullrank (a b : BMat) (mode : Mode) (draws : List Bool) (out : EqOut)
+    (hn : 0 < a.r) (e : isLcEquivalent a b mode draws = .ok out) (hp : out.path = "full-rank") (v : List Bool)
+    (hv : SolF (coeffMaker a.r a.f b.f) (vget v)) : isValidClifford a.r v = false := by
+  unfold isLcEquivalent at e
+  simp only [] at e
+  split at e
+  · cases e
+  · split at e
+    · rename_i hrank
+      -- the echelon structure of the reduced matrix
+      have hr : 0 < (coeffMaker a.r a.f b.f).norm.r := Nat.mul_pos hn hn
+      have hc : 0 < (coeffMaker a.r a.f b.f).norm.c := by show 0 < 4 * a.r; omega
+      obtain ⟨piv, hP, hkr⟩ := rowReduction_piv (coeffMaker a.r a.f b.f).norm
+        { r := (coeffMaker a.r a.f b.f).norm.r, c := (coeffMaker a.r a.f b.f).norm.c, f := fun _ _ => false } hr hc
+      obtain ⟨h1, h2, h3⟩ := rowReduction_spec (coeffMaker a.r a.f b.f).norm
+        { r := (coeffMaker a.r a.f b.f).norm.r, c := (coeffMaker a.r a.f b.f).norm.c, f := fun _ _ => false } (vget v) hr
+      have hc4 : (rowReduction (coeffMaker a.r a.f b.f).norm
+          { r := (coeffMaker a.r a.f b.f).norm.r, c := (coeffMaker a.r a.f b.f).norm.c, f := fun _ _ => false }).1.c = 4 * a.r := by
+        rw [h2]; rfl
+      have hsol := h3.mpr ((solF_norm _ _).mpr hv)
+      apply isValidClifford_zero a.r hn v
+      intro j hj
+      apply full_rank_zero _ _ piv hP _ hkr (vget v) hsol j (by rw [hc4]; exact hj)
+      rw [hc4]
+      omega
+    · split at e
+      · cases e
+      · split at e
+        · cases e
+        · split at e
+          · cases e
+          · split at e
+            · split at e <;> (cases e; simp at hp)
+            · split at e
+              · split at e
+                · cases e
+                · cases e; simp at hp
+              · split at e <;> (cases e; simp at hp)
+              · cases e
+
+
+/-! ### one local complementation is realised by an explicit local Clifford (the easy direction of Van den Nest's theorem, one step) -/
+
+/-- the solution vector for `A → localComp A v`: the block `[[1,0],[1,1]]` at `v`, `[[1,1],[0,1]]` at the neighbours of `v`,
+    the identity elsewhere -/
+def lcQ (A : Adj) (v : Nat) (idx : Nat) : Bool :=
+  if idx % 4 = 1 then A v (idx / 4) else if idx % 4 = 2 then decide (idx / 4 = v) else true
+
+theorem lcQ_0 (A : Adj) (v m : Nat) : lcQ A v (4 * m) = true := by
+  unfold lcQ; rw [if_neg (by omega), if_neg (by omega)]
+theorem lcQ_1 (A : Adj) (v m : Nat) : lcQ A v (4 * m + 1) = A v m := by
+  unfold lcQ; rw [if_pos (by omega)]; congr 1; omega
+theorem lcQ_2 (A : Adj) (v m : Nat) : lcQ A v (4 * m + 2) = decide (m = v) := by
+  unfold lcQ; rw [if_neg (by omega), if_pos (by omega)]
+  have : (4 * m + 2) / 4 = m := by omega
+  rw [this]
+theorem lcQ_3 (A : Adj) (v m : Nat) : lcQ A v (4 * m + 3) = true := by
+  unfold lcQ; rw [if_neg (by omega), if_neg (by omega)]
+
+theorem lcQ_solves (n : Nat) (A : Adj) (v : Nat) (hv : v < n) (hA : Simple n A) (j k : Nat) (hj : j < n) (hk : k < n) :
+    equation n A (localComp A v) (lcQ A v) j k = false := by
+  unfold equation
+  have e2 := lcQ_2 A v
+  rw [lcQ_0, lcQ_1, lcQ_3]
+  have hsum : (parityTo n fun m => A m j && localComp A v m k && lcQ A v (4 * m + 2)) = (A v j && localComp A v v k) := by
+    have : ∀ m, m < n → (A m j && localComp A v m k && lcQ A v (4 * m + 2)) = (decide (m = v) && (A m j && localComp A v m k)) := by
+      intro m _; rw [e2 m]; cases A m j <;> cases localComp A v m k <;> cases decide (m = v) <;> rfl
+    rw [parityTo_congr n _ _ this, parityTo_single n v _ hv]
+  rw [hsum]
+  have hvv : A v v = false := hA.2 v hv
+  have hvk : localComp A v v k = A v k := by
+    unfold localComp
+    by_cases e : v = k
+    · subst e; simp [hvv]
+    · simp [e, hvv]
+  rw [hvk]
+  unfold localComp
+  by_cases e : j = k
+  · subst e
+    simp [hA.2 j hj]
+  · simp only [e, if_false, decide_false, Bool.false_and]
+    rw [hA.1 j v hj hv]
+    cases A v j <;> cases A v k <;> cases A j k <;> rfl
+
+theorem lcQ_valid (n : Nat) (A : Adj) (v : Nat) (hv : v < n) (hA : Simple n A) :
+    isValidClifford n ((List.range (4 * n)).map (lcQ A v)) = true := by
+  unfold isValidClifford
+  rw [List.all_eq_true]
+  intro i hi
+  have hi' : i < n := List.mem_range.mp hi
+  rw [vget_map_range (4 * n) _ (4 * i) (by omega), vget_map_range (4 * n) _ (4 * i + 1) (by omega),
+    vget_map_range (4 * n) _ (4 * i + 2) (by omega), vget_map_range (4 * n) _ (4 * i + 3) (by omega)]
+  rw [lcQ_0, lcQ_1, lcQ_2, lcQ_3]
+  simp only [Bool.true_and]
+  by_cases e : i = v
+  · subst e; simp [hA.2 i hi']
+  · simp [e]
+
+
 end Graphiq.LC
